@@ -869,12 +869,14 @@ example : isIgnored "  # k=v".toList = true ∧ isIgnored "\t//k=v".toList = tru
 
 /-- **generated `for` loop = model scan**: the `for … in enumerate(separated_items[start:-1])` over the translated loop
 body is `Esc.forScan` (same `break` with the same glued list and new `start_from_item`, same exhaustion, same
-exception), for every snapshot, index and list. -/
+exception), for every snapshot of a slice that lies inside the list (`hlen`; the translated item store `l[i] = v` raises
+`IndexError` outside the list, the model's `List.set` does not — inside the `while` loop the slice always lies inside:
+`C17_generated_while_eq` has no such hypothesis). -/
 theorem C17_generated_for_eq (s d : Str) (m : Nat) (e : Char) (tr : Bool) (hd : d ≠ []) (start : Nat)
-    (snap : List Str) (i : Nat) (items : List Str) :
+    (snap : List Str) (i : Nat) (items : List Str) (hlen : snap.length = 0 ∨ start + i + snap.length ≤ items.length) :
     Gen.EscPy.forEnum (Gen.EscPy.forBody s d m e tr) snap i ⟨items, start⟩
       = (forScan ⟨e, d, tr, m⟩ start snap i items).map (EscGenEq.viewFor start) :=
-  EscGenEq.forEnum_eq s d m e tr hd start snap i items
+  EscGenEq.forEnum_eq s d m e tr hd start snap i items hlen
 
 /-- **generated `else` block of the `for` = `Esc.finalTrim`** (trim of the last item, then the `break` out of the `while`) -/
 theorem C17_generated_else_eq (s d : Str) (m : Nat) (e : Char) (tr : Bool) (items : List Str) (start : Nat) :
@@ -906,6 +908,10 @@ example : Gen.EscPy.forEnum (Gen.EscPy.forBody [] [';'] 1 '\\' true) [['a', '\\'
     = .ok (.brk ⟨[['a', ';', 'b'], ['c']], 0⟩) := by decide +kernel
 example : Gen.EscPy.forEnum (Gen.EscPy.forBody [] [';'] 0 '\\' true) [['a', '\\', '\\'], ['b']] 0 ⟨[['a', '\\', '\\'], ['b'], []], 0⟩
     = .ok (.cont ⟨[['a', '\\'], ['b'], []], 0⟩) := by decide +kernel
+-- `hlen` holds on the first example (the slice `items[0:-1]`), and is needed: a store outside the list raises in the translated code
+example : ([['a', '\\']] : List Str).length = 0 ∨ 0 + 0 + ([['a', '\\']] : List Str).length ≤ ([['a', '\\'], ['b', ';', 'c']] : List Str).length := by decide
+example : Gen.EscPy.forEnum (Gen.EscPy.forBody [] [';'] 0 '\\' true) [['a', '\\', '\\']] 0 ⟨[], 0⟩ = .error .IndexError
+    ∧ forScan ⟨'\\', [';'], true, 0⟩ 0 [['a', '\\', '\\']] 0 [] = .ok (.exhausted []) := ⟨by decide +kernel, rfl⟩
 example : Gen.EscPy.forElse [] [';'] 0 '\\' true ⟨[['a'], ['b', '\\', '\\', '\\']], 1⟩ = .ok (.brk ⟨[['a'], ['b', '\\', '\\']], 1⟩) := by
   decide +kernel
 example : (Gen.EscPy.whileTrue (Gen.EscPy.round [] [';'] 0 '\\' true) 3 ⟨[['a', '\\'], ['b', '\\'], ['c', '\\', '\\']], 0⟩).map (·.f0)
